@@ -70,9 +70,12 @@ type c10entry struct {
 }
 
 // c10Scenario: one history, all placements of timer firings and callbacks explored by the scheduler.
-func c10Scenario(ops []c10op, hist []int) *vsched.Scenario {
+// encrypted: a DTLS collector (the statement is about UDP whether or not the datagrams are encrypted; the
+// decoding path is driven directly, no handshake is involved)
+func c10Scenario(ops []c10op, hist []int, encrypted ...bool) *vsched.Scenario {
+	enc := len(encrypted) > 0 && encrypted[0]
 	main := func() {
-		cp, err := collector.InitCollectingProcess(collector.CollectorInput{Address: "127.0.0.1:4739", Protocol: "udp", MaxBufferSize: 65535, TemplateTTL: c10TTL})
+		cp, err := collector.InitCollectingProcess(collector.CollectorInput{Address: "127.0.0.1:4739", Protocol: "udp", MaxBufferSize: 65535, TemplateTTL: c10TTL, IsEncrypted: enc})
 		if err != nil {
 			panic(err)
 		}
@@ -227,6 +230,7 @@ type c10found struct {
 	Ops     []string
 	Problem vsched.Problem
 	Choices []int
+	Enc     bool
 }
 
 func c10names(ops []c10op, h []int) []string {
@@ -282,6 +286,7 @@ func runC10(tier, replay string) int {
 			Hist    []int
 			Choices []int
 			TwoDom  bool
+			Enc     bool
 		}
 		b, _ := json.Marshal(r.Trace)
 		json.Unmarshal(b, &tr)
@@ -290,7 +295,7 @@ func runC10(tier, replay string) int {
 			o = ops2
 		}
 		fmt.Println("history:", c10names(o, tr.Hist))
-		sc := c10Scenario(o, tr.Hist)
+		sc := c10Scenario(o, tr.Hist, tr.Enc)
 		out := sc.Run(tr.Choices)
 		for _, l := range vsched.Describe(out) {
 			fmt.Println("  ", l)
@@ -310,17 +315,19 @@ func runC10(tier, replay string) int {
 		maxE     int64 // cap on schedules per history for an unbounded search (0 = none)
 		fallback int   // bound completed instead when the cap is hit
 		twoDom   bool
+		enc      bool // DTLS collector
 	}
 	var plans []plan
 	if tier == "thorough" {
 		plans = []plan{
-			{ops, 1, 4, -1, 150000, 4, false}, // every interleaving for the histories the quick tier bounds
-			{ops, 5, 5, 3, 0, 0, false},       // one step deeper at the quick tier's bound
-			{ops2, 1, 3, -1, 150000, 4, true},
-			{ops2, 4, 4, 3, 0, 0, true},
+			{ops, 1, 4, -1, 150000, 4, false, false}, // every interleaving for the histories the quick tier bounds
+			{ops, 5, 5, 3, 0, 0, false, false},       // one step deeper at the quick tier's bound
+			{ops2, 1, 3, -1, 150000, 4, true, false},
+			{ops2, 4, 4, 3, 0, 0, true, false},
+			{ops, 1, 4, 3, 0, 0, false, true},
 		}
 	} else {
-		plans = []plan{{ops, 1, 4, 3, 0, 0, false}, {ops2, 1, 3, 3, 0, 0, true}}
+		plans = []plan{{ops, 1, 4, 3, 0, 0, false, false}, {ops2, 1, 3, 3, 0, 0, true, false}, {ops, 1, 3, 3, 0, 0, false, true}}
 	}
 	if nsh > 0 {
 		res := c10res{}
@@ -351,7 +358,7 @@ func runC10(tier, replay string) int {
 					if !mine {
 						continue
 					}
-					sc := c10Scenario(pl.ops, h)
+					sc := c10Scenario(pl.ops, h, pl.enc)
 					c := vsched.Explore(sc, vsched.ExploreConfig{Bound: pl.bound, MaxExecs: pl.maxE})
 					if c.Capped != "" && len(c.Problems) == 0 {
 						// too many interleavings for this history: fall back to a complete bounded search
@@ -377,7 +384,7 @@ func runC10(tier, replay string) int {
 					}
 					for _, f := range c.Problems {
 						if len(res.Problems) < 20 {
-							res.Problems = append(res.Problems, c10found{h, c10names(pl.ops, h), f.Problem, f.Choices})
+							res.Problems = append(res.Problems, c10found{h, c10names(pl.ops, h), f.Problem, f.Choices, pl.enc})
 						}
 					}
 				}
@@ -420,7 +427,7 @@ func runC10(tier, replay string) int {
 	seen := map[string]bool{}
 	infra := false
 	for _, f := range all {
-		k := f.Problem.Kind + "|" + strings.Join(f.Ops, ",")
+		k := f.Problem.Kind + "|" + strings.Join(f.Ops, ",") + fmt.Sprint(f.Enc)
 		if seen[k] {
 			continue
 		}
@@ -440,13 +447,13 @@ func runC10(tier, replay string) int {
 				o, two = ops2, true
 			}
 		}
-		sc := c10Scenario(o, f.Hist)
+		sc := c10Scenario(o, f.Hist, f.Enc)
 		if okc, why := e2Confirm(sc, vsched.Found{Problem: f.Problem, Choices: f.Choices}); !okc {
 			fmt.Println("counterexample does not reproduce:", why)
 			infra = true
 			continue
 		}
-		rep.Report("history", f.Problem.Kind, fmt.Sprintf("history %v: %s", f.Ops, f.Problem.Detail), map[string]interface{}{"hist": f.Hist, "ops": f.Ops, "choices": f.Choices, "twoDom": two}, nil)
+		rep.Report("history", f.Problem.Kind, fmt.Sprintf("history %v%s: %s", f.Ops, map[bool]string{true: " (DTLS collector)", false: ""}[f.Enc], f.Problem.Detail), map[string]interface{}{"hist": f.Hist, "ops": f.Ops, "choices": f.Choices, "twoDom": two, "enc": f.Enc}, nil)
 	}
 	fmt.Printf("C10 %s: histories=%d schedules=%d points=%d steps=%d maxdepth=%d outcomes=%d violations=%d caps=%d\n", tier, tot.Histories, tot.Execs, tot.Points, tot.Steps, tot.MaxDepth, tot.Outcomes, rep.Violations(), len(tot.Capped))
 	var samples []interface{}
